@@ -267,6 +267,8 @@ def big_rows(ctx: Ctx):
             row = {"op": "swu", "g": d, "u": L(u)}
             try:
                 el = cls(u[0]) if d == 1 else cls(list(u))
+                if d == 2 and len(rows) % 3 == 0:      # the same element built from FQ-OBJECT coefficients
+                    el = cls([FQ(u[0]), FQ(u[1])])
                 X, Y, D = swu_fn(el)
                 Xc, Yc, Dc = (tuple(int(c) for c in (v.coeffs if d == 2 else (v.n,))) for v in (X, Y, D))
                 row.update({"X": L(Xc), "Y": L(Yc), "D": L(Dc)})
